@@ -286,6 +286,22 @@ def Skel.step (thr : Rat) (s : Skel) : SkelOp → Skel
 
 def Skel.run (thr : Rat) (s : Skel) (ops : List SkelOp) : Skel := ops.foldl (Skel.step thr) s
 
+/-- `self.wn.num_junctions` -/
+def Skel.junctionCount (s : Skel) : Nat := (s.nodes.filter (fun n => n.kind == .junction)).length
+
+/-- the `while flag:` loop of `_Skeletonize.run`; `cycle` is one pass (branch trim, series merge, parallel merge over all
+junctions), `iter` the value of `iteration`, the first argument is fuel (`none` = fuel exhausted; Props/C19 `run_terminates` shows
+that `junctionCount + 1` is always enough).  Note `iteration > max_cycles` is tested AFTER the increment: `max_cycles = k` allows
+`k + 1` passes. -/
+def runLoop (cycle : Skel → Skel) (maxCycles : Option Nat) : Nat → Nat → Skel → Option Skel
+  | 0, _, _ => none
+  | fuel + 1, iter, s =>
+    let s' := cycle s
+    let stop := (match maxCycles with
+      | some m => decide (iter + 1 > m)
+      | none => false) || s'.junctionCount == s.junctionCount
+    if stop then some s' else runLoop cycle maxCycles fuel (iter + 1) s'
+
 /-! ### executable form of the skeletonization promises (the oracle the driver applies to the IMPLEMENTATION's output) -/
 
 /-- tanks, reservoirs, excluded / control-referenced junctions; pumps, valves, excluded / control-referenced pipes -/
